@@ -1,15 +1,22 @@
 #!/usr/bin/env python3
 """Confirms a seeded change (suite passes with it, demonstration fails with it and passes without)
-in a scratch worktree, then applies it to /repo, runs the property's check(s) and reverts.
-usage: eval_seed.py <seed dir> [extra check ids...]   (writes /verif/seeded/<name>/)"""
+in a scratch worktree of /repo, then runs the property's check(s) against that worktree with the
+change applied (VERIF_REPO=<worktree>, VERIF_OUT=<scratch>: same engine, same harnesses, same plan
+as the registered checks; /repo itself and /verif/evidence are not touched, so several seeds can be
+evaluated at once) and removes the worktree.
+usage: eval_seed.py <seed dir> [extra check ids...]   (writes /verif/seeded/<name>/)
+       EVAL_TIERS=quick,thorough (default) ; EVAL_SKIP_CONFIRM=1 re-runs detection only"""
 import json, os, re, shutil, subprocess, sys, time
-seed = sys.argv[1].rstrip('/')
+seed = os.path.abspath(sys.argv[1].rstrip('/'))
 name = os.path.basename(seed)
 meta = json.load(open(os.path.join(seed, 'meta.json')))
 prop = meta['property']
 checks = [prop] + sys.argv[2:]
 ENV = dict(os.environ, GOFLAGS='-mod=mod', GOTOOLCHAIN='local', GOPROXY='off', GOSUMDB='off')
-WT = '/tmp/wt_verify'
+WT = '/tmp/wt_eval_' + name
+OUT = '/tmp/evalout_' + name
+TIERS = os.environ.get('EVAL_TIERS', 'quick,thorough').split(',')
+SKIP = os.environ.get('EVAL_SKIP_CONFIRM') == '1'
 def sh(cmd, cwd=None, timeout=1800, env=ENV):
     p = subprocess.run(cmd, shell=True, cwd=cwd, env=env, stdout=subprocess.PIPE, stderr=subprocess.STDOUT, text=True, timeout=timeout)
     return p.returncode, p.stdout
@@ -39,6 +46,11 @@ try:
         rc, out = sh('%s test -vet=off -count=1 ./%s/' % (gobin, pkgdir), cwd=WT, timeout=900)
         os.remove(dst)
         return rc, out
+    if SKIP:
+        sh('git apply %s' % patch, cwd=WT)
+        res['confirmed'] = bool(meta.get('confirmed'))
+        ran = [r for r in meta.get('what_was_run', []) if r.startswith('demo') or r.startswith('full suite')]
+        raise StopIteration
     rc0, out0 = run_demo(); ran.append('demo on unmodified tree: %s' % ('pass' if rc0 == 0 else 'FAIL'))
     sh('git apply %s' % patch, cwd=WT)
     rcs, outs = sh('go test -vet=off -count=1 ./...', cwd=WT, timeout=1500)
@@ -49,16 +61,18 @@ try:
     res['confirmed'] = (rc0 == 0 and rcs == 0 and rc1 != 0)
     if not res['confirmed']:
         print('NOT CONFIRMED', ran); print(outs[-1500:] if rcs else ''); print(out0[-800:] if rc0 else '')
-finally:
+except StopIteration:
+    pass
+except BaseException:
     sh('git -C /repo worktree remove --force ' + WT)
+    raise
 detected = []
 if res.get('confirmed'):
-    rc, out = sh('git -C /repo apply %s' % patch); assert rc == 0, out
     try:
         for cid in checks:
-            for tier in ['quick', 'thorough']:
+            for tier in TIERS:
                 t = time.time()
-                rc, out = sh('timeout 3000 ./check %s %s' % (cid, tier), cwd='/verif', timeout=3100, env=os.environ)
+                rc, out = sh('timeout 3000 ./check %s %s' % (cid, tier), cwd='/verif', timeout=3100, env=dict(os.environ, VERIF_REPO=WT, VERIF_OUT=OUT))
                 lines = [l for l in out.splitlines() if l.startswith('VIOLATION') or l.startswith('  harness=') or l.startswith('INCONCLUSIVE')]
                 ran.append('./check %s %s -> exit %d (%.0fs)' % (cid, tier, rc, time.time() - t))
                 if rc == 1:
@@ -70,13 +84,15 @@ if res.get('confirmed'):
             if detected:
                 break
     finally:
-        sh('git -C /repo checkout -- .')
-        rc, out = sh('git -C /repo status --short'); assert out.strip() == '', out
+        pass
+sh('git -C /repo worktree remove --force ' + WT)
+shutil.rmtree(OUT, ignore_errors=True)
 out_dir = os.path.join('/verif/seeded', name)
 os.makedirs(out_dir, exist_ok=True)
 for f in os.listdir(seed):
     if f != 'meta.json' and os.path.isfile(os.path.join(seed, f)):
-        shutil.copy(os.path.join(seed, f), out_dir)
+        if os.path.abspath(seed) != os.path.abspath(out_dir):
+            shutil.copy(os.path.join(seed, f), out_dir)
 meta['confirmed'] = bool(res.get('confirmed'))
 meta['what_was_run'] = ran
 meta['detected_by'] = '; '.join(detected) if detected else 'NOT DETECTED'
